@@ -6,7 +6,7 @@ From Coq Require Import String List NArith Bool.
 From J5V.lib Require Import Outcome Strcase.
 From J5V.model Require Import J5sAst Desc J5sWalk J5sLink J5sConvert J5sContract J5sValid J5sCorr.
 From J5V.gen Require ImportsGen.
-From J5V.proofs Require Import J5sProofs J5sContractProofs J5sLinkProofs J5sResolveProofs J5sServiceProofs J5sTotalProofs J5sWitnessProofs.
+From J5V.proofs Require Import J5sProofs J5sContractProofs J5sLinkProofs J5sResolveProofs J5sServiceProofs J5sTotalProofs J5sCompileProofs J5sWitnessProofs.
 Import ListNotations.
 Local Open Scope N_scope.
 
@@ -67,14 +67,12 @@ Print Assumptions C02_properties_convert.
    <path>.proto in the source's package holding exactly the declared objects, oneofs and enums
    in order, every field with the declared name, JSON name, number = 1-based position, proto
    type, cardinality, optionality, every inline type nested under the documented name with the
-   same contract, to any depth.  What is missing for the full statement: acceptance of every
-   valid package (refuted below), and the type-name / import / service / topic clauses, which
-   are tied by the whole-descriptor correspondence and the direct oracle, not by a theorem. *)
-Theorem C02_compile_sound_partial : forall snake camel screaming bd pkg D,
+   same contract, to any depth. *)
+Theorem C02_compile_sound : forall snake camel screaming bd pkg D,
   compile_package snake camel screaming bd pkg = Ok D ->
   package_contract snake camel screaming bd pkg D.
 Proof. exact compile_sound. Qed.
-Print Assumptions C02_compile_sound_partial.
+Print Assumptions C02_compile_sound.
 
 (* ---- services: <Name>Service with exactly the declared methods; every method is
    rpc <Method>(<Method>Request) returns (<Method>Response | google.api.HttpBody) with the declared
@@ -135,48 +133,63 @@ Theorem C02_imports_become_dependencies : forall self imps x,
 Proof. exact in_deps_of. Qed.
 Print Assumptions C02_imports_become_dependencies.
 
-(* ---- when the relative name of an inline type denotes the declared type (the positive side of
-   the finding below): if no symbol of the generated file, of length >= 2, ends in the name it
-   starts with - i.e. no nested type is named like its root message - then the name
-   Root.Path.Name, written in any message below Root, links to .<package>.Root.Path.Name *)
-Theorem C02_inline_name_resolves_partial : forall syms fpkg scope parts root rest,
-  capture_free syms -> parts = root :: rest -> Forall nodot parts ->
-  In [root] syms -> In parts syms -> starts root scope ->
-  link_name syms fpkg scope (rel_name parts) = Ok (abs_name fpkg parts).
+(* ---- type names after the link step (fix 2ef7c92: names without a leading dot are qualified
+   before linking): the name Root.Path.Name the converter writes for an inline type becomes
+   .<package>.Root.Path.Name - whatever else is nested in the file - and the bare name of a map
+   entry becomes the entry nested in the message of the field *)
+Theorem C02_inline_type_name : forall nested fpkg scope parts,
+  rel_name parts <> [] -> hd 0 (rel_name parts) <> 46 -> ~ In (rel_name parts) nested ->
+  link_name nested fpkg scope (rel_name parts) = abs_name fpkg parts.
 Proof. exact link_name_inline. Qed.
-Print Assumptions C02_inline_name_resolves_partial.
+Print Assumptions C02_inline_type_name.
 
-(* ---- acceptance up to the link step: in a valid bundle every source file of every package
-   converts (objects, oneofs, enums, services, topics; loadLocalPackage + ConvertJ5File never
-   fail).  Together with C02_compile_sound_partial this leaves exactly one way for a valid
-   package to miss its contract: the link step (the refutations below). *)
+Theorem C02_map_entry_type_name : forall nested fpkg scope en,
+  en <> [] -> hd 0 en <> 46 -> In en nested ->
+  link_name nested fpkg scope en = abs_name fpkg (scope ++ [en]).
+Proof. exact link_name_entry. Qed.
+Print Assumptions C02_map_entry_type_name.
+
+(* ---- acceptance: in a valid bundle every source file of every package converts, and the whole
+   package compiles (conversion, link step, link of every imported generated file; the fuel of
+   the dependency closure always suffices) *)
 Theorem C02_valid_packages_convert : forall snake camel screaming bd pkg,
   valid_bundle snake camel bd = true -> (exists f, In f bd /\ bfile_pkg f = pkg) ->
   exists D, convert_package snake camel screaming bd pkg = Ok D.
 Proof. exact convert_package_total. Qed.
 Print Assumptions C02_valid_packages_convert.
 
-(* ---- the property at full strength, and its refutation by the faithful model *)
+Theorem C02_valid_packages_compile : forall snake camel screaming bd pkg,
+  valid_bundle snake camel bd = true -> (exists f, In f bd /\ bfile_pkg f = pkg) ->
+  exists D, compile_package snake camel screaming bd pkg = Ok D.
+Proof. exact compile_total. Qed.
+Print Assumptions C02_valid_packages_compile.
+
+(* ---- the property at full strength (structural contract: files, messages, enums, fields with
+   name / JSON name / number / type / cardinality / optionality, nesting to any depth), for every
+   name conversion; the service / topic / reference / type-name clauses are the separate theorems
+   above, stated on the same converter functions *)
 Definition C02_full_statement : Prop :=
-  forall bd pkg, valid bd = true -> (exists f, In (BJ f) bd /\ j5s_pkg f = pkg) ->
+  forall bd pkg, valid bd = true -> (exists f, In f bd /\ bfile_pkg f = pkg) ->
     exists D, compile bd pkg = Ok D /\ package_contract to_snake to_camel to_screaming_snake bd pkg D.
 
-(* `object Foo { field foo object { field y string } }` is valid and is rejected: the inline type
-   is referred to by the relative name Foo.Foo, which the linker resolves inside foo.v1.Foo.Foo *)
-Theorem C02_inline_named_like_parent_refuted :
-  valid w_named_like_parent = true /\
-  compile w_named_like_parent (b "foo.v1") = Err "unknown type: resolved to a name which is not defined".
-Proof. exact named_like_parent_rejected. Qed.
-Print Assumptions C02_inline_named_like_parent_refuted.
+Theorem C02_full : C02_full_statement.
+Proof. exact (compile_correct to_snake to_camel to_screaming_snake). Qed.
+Print Assumptions C02_full.
 
-(* ... and the silent form: a valid package compiles, but a field's type is not the declared one *)
-Theorem C02_inline_captured_refuted :
+(* ---- regression examples: the inputs of the repaired defects compile to the declared types *)
+Theorem C02_fixed_inline_named_like_parent :
+  valid w_named_like_parent = true /\
+  exists D, compile w_named_like_parent (b "foo.v1") = Ok D /\
+            first_field_tname D = abs_name (b "foo.v1") [b "Foo"; b "Foo"].
+Proof. exact named_like_parent_compiles. Qed.
+Print Assumptions C02_fixed_inline_named_like_parent.
+
+Theorem C02_fixed_inline_captured :
   valid w_captured = true /\
   exists D, compile w_captured (b "foo.v1") = Ok D /\
-            first_field_tname D = b ".foo.v1.Foo.Foo.X" /\
-            first_field_tname D <> abs_name (b "foo.v1") [b "Foo"; b "X"].
-Proof. exact captured_silently. Qed.
-Print Assumptions C02_inline_captured_refuted.
+            first_field_tname D = abs_name (b "foo.v1") [b "Foo"; b "X"].
+Proof. exact captured_resolves_to_declared. Qed.
+Print Assumptions C02_fixed_inline_captured.
 
 (* non-vacuity: a package with nesting, a map and an enum is valid, compiles, and its first
    message has the declared fields *)
